@@ -19,7 +19,7 @@ RULE = (
     "whitespace (space, tab, CR, LF) wherever RFC 8259 allows it (none trailing) and records the raw slice "
     "of every string token. Oracle: json.loads; both bundled grammars, rule json, four modes: accepted; a "
     "tree walker per grammar compares nesting, member order, number tokens as floats and string tokens as "
-    "raw slices; every proper prefix must raise PestParsingError. Calculator: random expression ASTs over "
+    "raw slices; proper prefixes (quick: 14 per document - both ends, the middle, random; thorough: 60, i.e. all of them for documents up to 60 characters) must raise PestParsingError. Calculator: random expression ASTs over "
     "small integers, variables, + - * / ^, unary minus, factorial and parentheses, printed with the "
     "documented precedence table (+ - < * / < ^ right-assoc < prefix < postfix) with only the necessary "
     "parentheses plus random redundant ones and whitespace; the three implementations are imported from a "
@@ -33,7 +33,7 @@ ASSUMPTIONS = [
     "intermediate are discarded before python-pest is called",
     "RFC 8259 documents only (no raw control characters in strings); the grammars may accept more",
 ]
-SIZES = {"quick": {"json": 40, "calc": 250, "prefixes": 14}, "thorough": {"json": 600, "calc": 6000, "prefixes": 10**9}}
+SIZES = {"quick": {"json": 40, "calc": 250, "prefixes": 14}, "thorough": {"json": 500, "calc": 6000, "prefixes": 60}}
 JSON_GRAMMARS = ["examples/json/json.pest", "tests/grammars/json.pest"]
 WS = [" ", "\t", "\r", "\n"]
 
